@@ -20,10 +20,12 @@ const (
 	opReconfA
 	opReconfB
 	opReconfInvalid
+	opRestore  // m.Reconfigure(m.Config())
+	opRequests // a burst of requests (must not change the state)
 	nC09Ops
 )
 
-var c09OpNames = []string{"SetDebug(true)", "SetDebug(false)", "Reconfigure(nil)", "Reconfigure(A)", "Reconfigure(B)", "Reconfigure(invalid)"}
+var c09OpNames = []string{"SetDebug(true)", "SetDebug(false)", "Reconfigure(nil)", "Reconfigure(A)", "Reconfigure(B)", "Reconfigure(invalid)", "Reconfigure(Config())", "requests"}
 
 type C09Plan struct {
 	A, B      Cfg
@@ -79,8 +81,15 @@ func genObservableCfg(r *R) Cfg {
 func (c09) Gen(r *R, tier string) any {
 	p := &C09Plan{A: genObservableCfg(r), B: genObservableCfg(r), StartZero: r.P(0.5)}
 	n := r.Range(1, 8)
+	if tier == "thorough" && r.P(0.3) {
+		n = r.Range(8, 14)
+	}
 	for i := 0; i < n; i++ {
-		p.Ops = append(p.Ops, r.Intn(nC09Ops))
+		if r.P(0.85) {
+			p.Ops = append(p.Ops, r.Intn(opRestore)) // the six operations of the property statement
+		} else {
+			p.Ops = append(p.Ops, r.Range(opRestore, nC09Ops-1))
+		}
 	}
 	p.Planted = genPlanted(r, r.Range(1, 3))
 	return p
@@ -189,6 +198,12 @@ func (c09) Exec(plan any, c *Ctx) *Violation {
 			case opReconfInvalid:
 				cc := bad.Config()
 				err = m.Reconfigure(&cc)
+			case opRestore:
+				err = m.Reconfigure(m.Config())
+			case opRequests:
+				for _, q := range []Req{{Method: "GET"}, passProbe, preflight("https://probe.test", "GET", []string{"x-foo"}, true), {Method: "GET", H: []HV{{hOrigin, []string{"https://probe.test"}}}}} {
+					srv.do(q)
+				}
 			}
 		})
 		if pan != "" {
@@ -229,6 +244,17 @@ func (c09) Exec(plan any, c *Ctx) *Violation {
 			if op == opReconfB {
 				cur = p.B
 			}
+		case opRestore:
+			// documented no-op on a configured middleware; on a passthrough one Config() is nil, i.e. Reconfigure(nil)
+			c.hit("op_restore")
+			if err != nil {
+				return &Violation{Class: "reconfigure-result", Key: p.key(), Detail: step + " returned " + err.Error()}
+			}
+			if !configured {
+				debug = false
+			}
+		case opRequests:
+			c.hit("op_requests")
 		case opReconfInvalid:
 			sawReconf = true
 			c.hit("F1_rejected_reconfigure")
